@@ -60,6 +60,24 @@ impl Tri {
 	}
 }
 
+/// error bound of a sum or difference that is known to be exact: numerically zero (comparisons on it are decided), but
+/// marked by its sign so that exactness does not propagate through a *second* addition - a chain of two or more
+/// additions can legitimately be associated differently by an implementation, a single one cannot.
+pub const DERIVED_EXACT: f64 = -0.0;
+
+#[inline]
+fn emax(a: f64, b: f64) -> f64 {
+	if a == 0.0 && b == 0.0 {
+		if a.is_sign_negative() || b.is_sign_negative() {
+			DERIVED_EXACT
+		} else {
+			0.0
+		}
+	} else {
+		a.max(b)
+	}
+}
+
 /// `s = fl(a + b)` carries no rounding (TwoSum error term zero) and is representable in `ValueType`: every IEEE
 /// implementation that forms this sum or difference of two exactly known operands with one operation returns exactly
 /// `s`, so the tracked result keeps `e = 0` and comparisons on it (ties of price moves on a tick grid) stay decidable.
@@ -90,6 +108,11 @@ impl T {
 			T::UND
 		}
 	}
+	/// an input field or a constant (bound +0.0), as opposed to a derived exact quantity (bound -0.0)
+	#[inline]
+	pub fn primary(self) -> bool {
+		self.e.to_bits() == 0
+	}
 	#[inline]
 	pub fn und(self) -> bool {
 		!self.e.is_finite() || !self.v.is_finite()
@@ -106,16 +129,16 @@ impl T {
 	#[inline]
 	pub fn add(self, o: T) -> T {
 		let v = self.v + o.v;
-		if self.e == 0.0 && o.e == 0.0 && sum_is_exact(self.v, o.v, v) {
-			return T::new(v, 0.0);
+		if self.primary() && o.primary() && sum_is_exact(self.v, o.v, v) {
+			return T::new(v, DERIVED_EXACT);
 		}
 		T::new(v, self.e + o.e + U * v.abs())
 	}
 	#[inline]
 	pub fn sub(self, o: T) -> T {
 		let v = self.v - o.v;
-		if self.e == 0.0 && o.e == 0.0 && sum_is_exact(self.v, -o.v, v) {
-			return T::new(v, 0.0);
+		if self.primary() && o.primary() && sum_is_exact(self.v, -o.v, v) {
+			return T::new(v, DERIVED_EXACT);
 		}
 		T::new(v, self.e + o.e + U * v.abs())
 	}
@@ -165,7 +188,7 @@ impl T {
 		}
 		T {
 			v: self.v.max(o.v),
-			e: self.e.max(o.e),
+			e: emax(self.e, o.e),
 		}
 	}
 	#[inline]
@@ -175,7 +198,7 @@ impl T {
 		}
 		T {
 			v: self.v.min(o.v),
-			e: self.e.max(o.e),
+			e: emax(self.e, o.e),
 		}
 	}
 	/// widen the bound by an absolute amount
